@@ -204,6 +204,30 @@ func main() {
 		if !reflect.DeepEqual(want, merged.PeopleMatrix) && !(len(want) == 0 && len(merged.PeopleMatrix) == 0) {
 			return string(desc), class, fmt.Sprintf("interaction matrix %v, re-indexed sums of the inputs %v", merged.PeopleMatrix, want), []string{tag}
 		}
+		// the merged histories depend on the begin times only through the ticks they fall into: moving both begin times
+		// to the start of their ticks changes nothing
+		al := func(c *core.CommonAnalysisResult) *core.CommonAnalysisResult {
+			d := *c
+			d.BeginTime = c.BeginTime / day * day
+			d.RunTimePerItem = map[string]float64{}
+			return &d
+		}
+		var merged2 leaves.BurndownResult
+		func() {
+			defer func() {
+				if r := recover(); r != nil {
+					msg = fmt.Sprintf("panic with tick-aligned begin times: %v", r)
+				}
+			}()
+			merged2 = (&leaves.BurndownAnalysis{}).MergeResults(r1, r2, al(c1), al(c2)).(leaves.BurndownResult)
+		}()
+		if msg != "" {
+			return string(desc), "burndown-merge-time-of-day", msg, []string{tag}
+		}
+		if !reflect.DeepEqual(merged.GlobalHistory, merged2.GlobalHistory) || !reflect.DeepEqual(merged.PeopleHistories, merged2.PeopleHistories) {
+			return string(desc), "burndown-merge-time-of-day", fmt.Sprintf("the merged histories depend on the time of day of the begin times: project history %v, with both begin times moved to the start of their ticks %v",
+				merged.GlobalHistory, merged2.GlobalHistory), []string{tag}
+		}
 		return string(desc), class, "", []string{tag}
 	})
 }
